@@ -124,7 +124,7 @@ def main(argv=None):
     known = load_known()
     violations, undecided, errors = [], [], []
     all_obl = []
-    replay_dir = os.path.join(VERIF, "replay", a.prop)
+    replay_dir = os.path.join(os.environ.get("PYVC_REPLAY_DIR") or os.path.join(VERIF, "replay"), a.prop)
     for i in idxs:
         rep = reports[i]
         tgt = P.targets[i]
@@ -235,7 +235,7 @@ def main(argv=None):
         json.dump(b, open(os.path.join(VERIF, "baseline_obligations.json"), "w"), indent=0, sort_keys=True)
 
     # ---------------------------------------------------------------- evidence
-    if not a.only and re.match(r"C\d\d$", a.prop):
+    if not a.only and re.match(r"C\d\d$", a.prop) and not os.environ.get("PYVC_NO_EVIDENCE"):
         units = []
         trusted = set()
         for i in idxs:
